@@ -2445,8 +2445,8 @@ def bindings(bindings: Mapping[Var, Any] | None = None):
     logger.debug(
         f"Binding thread-local values for Vars: {', '.join(map(str, m.keys()))}"
     )
+    push_thread_bindings(m)
     try:
-        push_thread_bindings(m)
         yield
     finally:
         pop_thread_bindings()
